@@ -44,14 +44,15 @@ def goenv():
     return e
 
 
-_built = False
+_built = {}
 
 
-def build_harness():
-    """Rebuild the stub (if missing) and the harness against /repo's current tree."""
-    global _built
-    if _built:
-        return
+def build_harness(pkg=None):
+    """Rebuild the stub (if missing) and the harness binary for one driver package
+    (tag drv_<pkg>) against the tree under test.  Returns the binary path.
+    Without pkg only the module file / import stubs are refreshed."""
+    if pkg in _built:
+        return _built[pkg]
     t = time.time()
     if not os.path.exists("/verif/stubs/libflux/libflux.a"):
         r = subprocess.run("cd /verif/stubs/libflux && gcc -O1 -c flux.c -o flux.o && ar rcs libflux.a flux.o",
@@ -62,12 +63,24 @@ def build_harness():
     if r.returncode != 0:
         raise Broken("genmod failed: " + r.stderr)
     modfile = r.stdout.strip().splitlines()[-1]
-    r = subprocess.run(["go", "build", "-tags", "verif", "-modfile", modfile, "-o", KVH, "./cmd/kvh"],
+    if pkg is None:
+        _built[None] = None
+        return None
+    out = KVH + "-" + pkg
+    r = subprocess.run(["go", "build", "-tags", "verif drv_" + pkg, "-modfile", modfile, "-o", out, "./cmd/kvh"],
                        cwd=os.path.join(VERIF, "harness"), env=goenv(), capture_output=True, text=True)
     if r.returncode != 0:
         raise Broken("harness build failed (does %s still compile?):\n" % REPO + r.stdout + r.stderr)
-    _built = True
-    log("harness built in %.1fs" % (time.time() - t))
+    _built[pkg] = out
+    log("harness %s built in %.1fs" % (pkg, time.time() - t))
+    return out
+
+
+def driver_pkg(name):
+    m = re.match(r"c\d+", name)
+    if not m:
+        raise Broken("driver name %r must start with its package name cNN" % name)
+    return m.group(0)
 
 
 class Scratch:
@@ -161,9 +174,9 @@ def model_check(scratch, module_dir, module, cfg, workers=16, timeout=900, expec
 
 def run_driver(scratch, name, tier, seed, timeout=1800, args=None, outname=None):
     """Run `kvh <name>`; returns (outdir, meta)."""
-    build_harness()
+    kvh = build_harness(driver_pkg(name))
     out = scratch.sub(outname or ("drv-" + name))
-    cmd = ["timeout", str(timeout), KVH, name, "-tier", tier, "-seed", str(seed), "-out", out] + (args or [])
+    cmd = ["timeout", str(timeout), kvh, name, "-tier", tier, "-seed", str(seed), "-out", out] + (args or [])
     t = time.time()
     r = subprocess.run(cmd, env=goenv(), capture_output=True, text=True)
     if r.returncode != 0:
